@@ -20,7 +20,9 @@ Cases  : corpus/C02 (minimised past failures) + small exhaustive sets + c02gen.p
          separate field-comparison sub-profile, reported separately in the evidence).  Standing dimension (round 5):
          exhaustive_redir_grid — print/printf x redirection operator x shape of the last list member x shape of the
          target x parenthesised/open list x member count, every written file/pipe read back in the program and compared
-         after the run; exhaustive_getline_table — all getline forms incl. input pipes, pairwise.
+         after the run; exhaustive_getline_table — all getline forms incl. input pipes, pairwise; linegrid_printf and
+         linegrid_regex — constructs outside the Lean model (arbitrary printf specs, EREs with nullable patterns in
+         sub/gsub/split/match), judged cell by cell by the reference oracle alone (`nomodel` cases).
 """
 import os, sys, time, json, shutil, hashlib, subprocess, signal, random
 from concurrent.futures import ThreadPoolExecutor
@@ -219,6 +221,14 @@ def judge(case, res, model):
         return dict(kind="nonterminating", detail="all three implementations ran into the timeout (generator produced a non-terminating program)")
     if bad:
         return dict(kind="crash", detail=bad)
+    if mk == "nomodel":
+        # line-grid cells (printf specs, regex builtins with arbitrary EREs): the constructs are outside the Lean model;
+        # the property oracle hawk = gawk AND mawk is the whole judgement
+        if not (g["rc"] >= 0 and m["rc"] >= 0 and obs(g) == obs(m)):
+            return dict(kind="refs-disagree", detail="(no model)")
+        if obs(h) != obs(g):
+            return dict(kind="violation", detail="no model for this construct; references agree", model_agrees=True)
+        return dict(kind="ok", detail="(no model)")
     if mk == "outside":
         return dict(kind="outside", detail=mv)
     if mk != "ok":
@@ -266,7 +276,7 @@ def replay_text(case, res, model, verdict):
     t += "CASE " + json.dumps(dict(prog_txt=case["prog_txt"], prog_sx=case["prog_sx"], files=case["files"],
                                     stdin=case["stdin"], extra=case["extra"], fieldcmp=case.get("fieldcmp", False),
                                     regex_alts=case.get("regex_alts", []), rmw_alts=case.get("rmw_alts", []), cmdline=case.get("cmdline"),
-                                    lowprec_alts=case.get("lowprec_alts", []),
+                                    lowprec_alts=case.get("lowprec_alts", []), nomodel=case.get("nomodel", False),
                                     twin_rmw_alts=case.get("twin_rmw_alts", []), twin_txt=case.get("twin_txt"),
                                     twin_sx=case.get("twin_sx"), twin_regex_alts=case.get("twin_regex_alts", []))) + "\n"
     t += "## prog.awk\n" + case["prog_txt"]
@@ -279,7 +289,7 @@ def replay_text(case, res, model, verdict):
             t += "## %s\n%s" % (name, show(obs(res[tag])))
             if res[tag]["err"]:
                 t += "stderr=%r\n" % res[tag]["err"][-800:]
-    t += "## model\n" + (show(model[1]) if model[0] == "ok" else "%s %s\n" % model)
+    t += "## model\n" + (show(model[1]) if model[0] == "ok" else "%s %s\n" % tuple(model))
     return t
 
 
@@ -509,7 +519,9 @@ def evaluate(ctx, hawk, cases, timeout=10):
     ensure_driver(ctx)
     with ThreadPoolExecutor(max_workers=NCPU) as ex:
         futs = [ex.submit(run_three, hawk, ctx.scratch, "%d" % next(_SEQ), c, timeout) for i, c in enumerate(cases)]
-        mres = run_model(ctx, cases)
+        withm = [c for c in cases if not c.get("nomodel")]
+        mit = iter(run_model(ctx, withm))
+        mres = [("nomodel", "") if c.get("nomodel") else next(mit) for c in cases]
         results = [f.result() for f in futs]
     out = []
     for c, r, m in zip(cases, results, mres):
@@ -520,7 +532,7 @@ def evaluate(ctx, hawk, cases, timeout=10):
 def evaluate_one(ctx, hawk, case):
     ensure_driver(ctx)
     r = run_three(hawk, ctx.scratch, "s%d" % next(_SEQ), case)
-    m = run_model(ctx, [case])[0]
+    m = ("nomodel", "") if case.get("nomodel") else run_model(ctx, [case])[0]
     return r, m, judge(case, r, m)
 
 
@@ -942,6 +954,128 @@ def lowprec_neutralised(case):
     return c
 
 
+# ------------------------------------------------------------------------------------------ line grids (no model)
+def _flag_strings():
+    """every subset of the printf flags - 0 + space #, in canonical and in reversed order"""
+    import itertools
+    out = []
+    for n in range(0, 6):
+        for sub in itertools.combinations("-0+ #", n):
+            t = "".join(sub)
+            out.append(t)
+            if n >= 2:
+                out.append(t[::-1])
+    return out
+
+
+def linegrid_printf(rng, quick):
+    """printf / sprintf: flag subsets of {-,0,+,space,#} in both orders x width {none,1,5,*} x precision {none,.0,.3,.*}
+    x conversions d i o x X u c s e f g x argument values (negative, zero, positive, large, string).  One group (one awk
+    program) per (conversion, width); every cell is one statement printing one labelled line."""
+    vals = {"d": ["-42", "0", "42", "123456789", '"17abc"'], "c": ["65", '"hello"'], "s": ['"hello"', "42", '""', "-3.5"],
+            "e": ["-42", "0", "3.14159", "123456789"]}
+    for k in "iouxX":
+        vals[k] = vals["d"]
+    vals["u"] = ["0", "42", "123456789", '"17abc"']
+    vals["f"] = vals["g"] = vals["e"]
+    flags = _flag_strings()
+    groups = []
+    for conv in "diouxXcsefg":
+        for w in ("", "1", "5", "*"):
+            lines = []
+            for fl in flags:
+                for pr in ("", ".0", ".3", ".*"):
+                    vs = vals[conv]
+                    for v in vs:
+                        spec = "%" + fl + w + pr + conv
+                        args = (["5"] if w == "*" else []) + (["3"] if pr == ".*" else []) + [v]
+                        if rng.random() < 0.5:
+                            lines.append('printf "@K@|[%s]\\n", %s' % (spec, ", ".join(args)))
+                        else:
+                            lines.append('print "@K@|[" sprintf("%s", %s) "]"' % (spec, ", ".join(args)))
+            groups.append(dict(name="printf %%%s%s" % (w, conv), prelude=[], lines=lines, feat="linegrid-printf"))
+    return groups
+
+
+REGEX_GRID = ["b*", "x*", "a?", "(a|ab)*", "^", "$", "(a|)", "a*b*", "[ab]*", ".*", "b+", "(ab)*", "^a*", "b*c", "a|b*", "()",
+              "(^a|b$)", "[^a]*", "a*$", "c*$"]
+REGEX_SUBJECTS = ["abc", "abbbc", "", "aaa", "bab", "abab", "xyz", "aXbb c", "abc abc"]
+
+
+def linegrid_regex(rng, quick):
+    """sub / gsub / split / match with patterns from a small ERE grammar that includes nullable patterns (x*, (a|ab)*,
+    a?, ^, $, empty alternative) on the targets variable / array element / $0 / field; the count AND the result are
+    printed.  One group per (function, pattern); regex literal or dynamic regex string by the seed."""
+    groups = []
+
+    def q(t):
+        return '"' + t.replace("\\", "\\\\").replace('"', '\\"') + '"'
+    for fn in ("gsub", "sub", "split", "match"):
+        for pat in REGEX_GRID:
+            lines = []
+            for sbj in REGEX_SUBJECTS:
+                re_ = "/" + pat + "/" if rng.random() < 0.7 else q(pat)
+                if fn in ("gsub", "sub"):
+                    reps = ["-", "<&>", ""]
+                    for rp in reps:
+                        lines.append('s = %s; n = %s(%s, %s, s); print "@K@|" n "|" s' % (q(sbj), fn, re_, q(rp)))
+                        lines.append('A[1] = %s; n = %s(%s, %s, A[1]); print "@K@|" n "|" A[1]' % (q(sbj), fn, re_, q(rp)))
+                        lines.append('$0 = %s; n = %s(%s, %s); print "@K@|" n "|" $0 "|" NF' % (q(sbj + " " + sbj), fn, re_, q(rp)))
+                        lines.append('$0 = %s; n = %s(%s, %s, $2); print "@K@|" n "|" $0 "|" NF' % (q("x " + sbj + " y"), fn, re_, q(rp)))
+                elif fn == "split":
+                    lines.append('n = split(%s, B, %s); r = ""; for (k = 1; k <= n; k++) r = r "<" B[k] ">"; print "@K@|" n "|" r' % (q(sbj), re_))
+                else:
+                    lines.append('r = match(%s, %s); print "@K@|" r "|" RSTART "|" RLENGTH' % (q(sbj), re_))
+                    lines.append('$0 = %s; r = match($2, %s); print "@K@|" r "|" RSTART "|" RLENGTH' % (q("x " + sbj + " y"), re_))
+            groups.append(dict(name="%s /%s/" % (fn, pat), prelude=[], lines=lines, feat="linegrid-regex"))
+    return groups
+
+
+def linegrid_case(group, idxs):
+    body = [l.replace("@K@", str(k)) for k, l in enumerate(group["lines"]) if idxs is None or k in idxs]
+    txt = "BEGIN {\n" + "".join("  " + l + "\n" for l in group["prelude"] + body) + "}\n"
+    return dict(prog_txt=txt, prog_sx="", files=[], stdin="", extra=[], features={group["feat"]}, fieldcmp=False, nomodel=True)
+
+
+def _labelled(out):
+    d = {}
+    for l in out.split("\n"):
+        k, sep, rest = l.partition("|")
+        if sep and k.isdigit():
+            d[int(k)] = rest
+    return d
+
+
+def run_linegrids(ctx, hawk, groups):
+    """every group through hawk, gawk --posix and mawk; per labelled line: judged iff both references printed it and
+    agree; a hit = hawk's line differs (or is missing) there.  Returns (hits, stats); a hit is the single-cell case."""
+    cases = [linegrid_case(g_, None) for g_ in groups]
+    with ThreadPoolExecutor(max_workers=NCPU) as ex:
+        res = list(ex.map(lambda c: run_three(hawk, ctx.scratch, "g%d" % next(_SEQ), c, 30), cases))
+    hits, st = [], dict(groups=len(groups), cells=0, judged=0, refs_disagree=0, hits=0, crashes=0, per_feature={})
+    for g_, c, r in zip(groups, cases, res):
+        bad = hawk_bad_status(r["h"])
+        if bad:
+            st["crashes"] += 1
+            hits.append((g_, None, "hawk %s on the whole group" % bad))
+            continue
+        lh, lg, lm = _labelled(r["h"]["out"]), _labelled(r["g"]["out"]), _labelled(r["m"]["out"])
+        pf = st["per_feature"].setdefault(g_["feat"], dict(cells=0, judged=0, hits=0))
+        first = True
+        for k in range(len(g_["lines"])):
+            st["cells"] += 1; pf["cells"] += 1
+            if k in lg and k in lm and lg[k] == lm[k]:
+                st["judged"] += 1; pf["judged"] += 1
+                if lh.get(k) != lg[k]:
+                    st["hits"] += 1; pf["hits"] += 1
+                    if first:
+                        hits.append((g_, k, "hawk %r vs references %r" % (lh.get(k), lg[k])))
+                        first = False
+            else:
+                st["refs_disagree"] += 1
+    return hits, st
+
+
 def exhaustive_getline_table():
     """the six getline forms of the POSIX table (plain, var, < file, var < file, cmd |, cmd | var; the command being
     `cat file` or `echo words`): every ordered pair of forms executed on the first record of a three-record input,
@@ -1193,6 +1327,8 @@ def run(ctx):
         ctx.log("redirection grid: the %d low-precedence last-member cases are withheld (finding %s not registered; C02_LOWPREC=1 runs them)" % (len(exhaustive_redir_lowprec(random.Random(0))), LOWPREC_SIG))
     if os.environ.get("C02_ONLY") == "grid":      # debugging aid: only the redirection grid
         corpus, n_main, n_fc = exhaustive_redir_grid(rng) + exhaustive_getline_table() + exhaustive_redir_lowprec(rng), 0, 0
+    if os.environ.get("C02_ONLY") == "linegrid":  # debugging aid: only the line grids
+        corpus, n_main, n_fc = [], 0, 0
     ncorpus = len(corpus)
     total = ncorpus + n_main + n_fc
     ctx.log("cases: %d corpus+exhaustive, %d main profile, %d field-comparison sub-profile" % (ncorpus, n_main, n_fc))
@@ -1278,6 +1414,23 @@ def run(ctx):
                     % (vs.get("detail", ""), "field-comparison" if c.get("fieldcmp") else "main", obs(rs["h"])[:2], obs(rs["g"])[:2])) if kind == "violation" else \
                    ("hawk terminated abnormally (%s) on a program of the compatible subset" % vs.get("detail", ""))
             ctx.problem("impl", what[:900], replay_text(small, rs, ms, vs), found_input=True, sig=sig)
+    # ---- line grids: printf specs and regex builtins (no model; oracle = agreed references) -------------
+    lg_groups = linegrid_printf(rng, quick) + linegrid_regex(rng, quick)
+    lg_hits, lg_stats = run_linegrids(ctx, hawk, lg_groups)
+    ctx.log("line grids: %s" % json.dumps(lg_stats, sort_keys=True))
+    for g_, k, why in lg_hits:
+        if reported >= 6:
+            break
+        cc = linegrid_case(g_, None if k is None else {k})
+        rs, ms, vs = evaluate_one(ctx, hawk, cc)
+        if vs["kind"] not in ("violation", "crash"):
+            cc = linegrid_case(g_, None)             # the cell alone does not fail: report the group as run
+            rs, ms, vs = evaluate_one(ctx, hawk, cc)
+            if vs["kind"] not in ("violation", "crash"):
+                continue
+        reported += 1
+        ctx.problem("impl", ("hawk differs from gawk --posix and mawk (which agree) in the %s grid, group %s: %s" % (g_["feat"], g_["name"], why))[:900],
+                    replay_text(cc, rs, ms, vs), found_input=True)
     if known_counts:
         ctx.log("known-finding classes: %s" % json.dumps(known_counts, sort_keys=True))
     # ---- phase 2: correspondence with the model ---------------------------------------------------------
@@ -1304,15 +1457,15 @@ def run(ctx):
                             replay_text(small, rs, ms, vs), found_input=False)
                 break
     judged = counts.get("ok", 0) + counts.get("violation", 0)
-    return C.finish(ctx, [proof], total * 4, len(nontriv),
-                    "cases = corpus + small exhaustive sets (range rule over every begin/end truth sequence up to length 3 quick / 5 thorough; the same with an action that changes what the end pattern reads, over two files; every exit placement in BEGIN x main x END; `exit expr` inside user functions at call depth 1-3 from each phase x later bare exit / exit expr in END; every comparison of an unset variable; every ordered pair of split() sources into one array, split across records with empty lines, repeated sub/gsub and getline var on one variable; every loop form x continue/break x iteration, also nested; every pair (thorough: triple) of $k= / NF= / $0= operations on every record of a file with records of varying length; every 3-sequence of > / >> / printf > / close on one file; the print/printf x {>, >>, |} x last-member shape (7) x target shape (6) x parenthesised/open list x 1-3 members redirection grid with every file closed and read back by getline in the program (+ the 96 unparenthesised low-precedence last-member cases when the finding is registered); every ordered pair of the 8 getline forms incl. `cmd | getline [var]`, each redirected form drained, re-read at EOF, closed and restarted) + typed-generator programs x generated inputs (0-3 files, with/without trailing newline, empty lines/files, "
+    return C.finish(ctx, [proof], total * 4 + lg_stats["judged"] * 3, len(nontriv),
+                    "cases = corpus + small exhaustive sets (range rule over every begin/end truth sequence up to length 3 quick / 5 thorough; the same with an action that changes what the end pattern reads, over two files; every exit placement in BEGIN x main x END; `exit expr` inside user functions at call depth 1-3 from each phase x later bare exit / exit expr in END; every comparison of an unset variable; every ordered pair of split() sources into one array, split across records with empty lines, repeated sub/gsub and getline var on one variable; every loop form x continue/break x iteration, also nested; every pair (thorough: triple) of $k= / NF= / $0= operations on every record of a file with records of varying length; every 3-sequence of > / >> / printf > / close on one file; the print/printf x {>, >>, |} x last-member shape (7) x target shape (6) x parenthesised/open list x 1-3 members redirection grid with every file closed and read back by getline in the program (+ the 96 unparenthesised low-precedence last-member cases when the finding is registered); every ordered pair of the 8 getline forms incl. `cmd | getline [var]`, each redirected form drained, re-read at EOF, closed and restarted) + two line grids without model (one labelled output line per cell, judged per line where gawk and mawk both print it and agree; 3 evaluations per judged cell): printf/sprintf flag subsets of {-,0,+,space,#} in both orders x width {none,1,5,*} x precision {none,.0,.3,.*} x d i o x X u c s e f g x 2-5 argument values, and sub/gsub/split/match x 20 EREs incl. nullable ones (x*, (a|ab)*, a?, ^, $, empty alternative) x 9 subjects x targets variable / array element / $0 / field x 3 replacements + typed-generator programs x generated inputs (0-3 files, with/without trailing newline, empty lines/files, "
                     "leading/trailing blanks, single-char FS variants); each case = 4 evaluations (hawk --classic, gawk --posix, mawk, Lean model); "
                     "oracle: hawk (stdout, exit status, written files) = agreed references; ties: model = agreed references, model = hawk; "
                     "distinct_nontrivial = distinct programs judged ok (all four agree) that use at least one of " + ",".join(sorted(NONTRIVIAL)),
                     samples,
                     extra_cov=dict(verdicts=counts, sub_profiles=sub, feature_distribution=dict(sorted(feat.items())),
                                    judged_against_references=judged, discarded_refs_disagree=counts.get("refs-disagree", 0),
-                                   outside_profile=counts.get("outside", 0), known_finding_cases=known_counts,
+                                   outside_profile=counts.get("outside", 0), known_finding_cases=known_counts, line_grids=lg_stats,
                                    profile_exclusions=PROFILE_EXCLUSIONS, hawk_config="hawk --classic -f prog.awk files",
                                    references="gawk --posix (5.2.1), mawk (1.3.4)"),
                     trusted=["gawk --posix and mawk, where they agree, as the reference behaviour",
